@@ -411,8 +411,110 @@ fn oracle(
     Ok(crash_points)
 }
 
+/// One-shot checks: when the stream has ended the bookkeeping of that check is committed.
+fn run_oneshot(ctx: &RunCtx) -> RunOut {
+    let cup = choose("cup", 2) == 1;
+    let classes: Vec<Step> = {
+        let mut v = vec![Step::NoUpdate, Step::Installed, Step::Deferred, Step::InstallFailed, Step::Transport, Step::Status500, Step::Unparseable, Step::PlanFail, Step::InstalledRetryAfter];
+        if cup {
+            v.push(Step::Forged);
+        }
+        v
+    };
+    let class = classes[choose("class", classes.len())];
+    // storage left behind by an earlier run: nothing, or two earlier failures and an old contact time
+    let prior = choose("prior_storage", 2) == 1;
+    let mut store = Store::default();
+    let old_time_us: i64 = 1_500_000_000_000_000;
+    if prior {
+        store.committed.insert("consecutive_failed_update_checks".into(), StVal::I(2));
+        store.committed.insert("last_update_time".into(), StVal::I(old_time_us));
+    }
+    let mut setup = Setup::new(Mode::Oneshot);
+    setup.cup = cup;
+    let knobs = std::sync::Arc::new(std::sync::Mutex::new(hist::Knobs::default()));
+    {
+        let mut k = knobs.lock().unwrap();
+        match class {
+            Step::NoUpdate => k.uc = Uc::NoUpdate,
+            Step::Installed => k.uc = Uc::Update,
+            Step::Deferred => {
+                k.uc = Uc::Update;
+                k.policy = UpdAns::Deferred;
+            }
+            Step::InstallFailed => {
+                k.uc = Uc::Update;
+                k.install = vec![AppRes::Failed];
+            }
+            Step::Transport => k.uc = Uc::Transport,
+            Step::Status500 => k.uc = Uc::Status500,
+            Step::Unparseable => k.uc = Uc::Unparseable,
+            Step::PlanFail => {
+                k.uc = Uc::Update;
+                k.plan_ok = false;
+            }
+            Step::InstalledRetryAfter => {
+                k.uc = Uc::Update;
+                k.other_retry_after = vec![None, Some(b"600".to_vec()), None];
+            }
+            _ => k.uc = Uc::Forged,
+        }
+    }
+    let d = hist::HistDirector {
+        knobs: knobs.clone(),
+        app_ids: setup.apps.iter().map(|a| a.id.clone()).collect(),
+    };
+    let mut e = Exec::new(setup.clone(), Box::new(d), store);
+    let lo = e.w.lock().unwrap().clock.wall;
+    let stop = e.run_auto(3000, |_| false);
+    let hi = e.w.lock().unwrap().clock.wall;
+    let log = e.log();
+    let mut out = RunOut::new(format!("{class:?}"), true, trace::digest(&log));
+    if ctx.want_trace {
+        out.trace = Some(json!({"class": format!("{class:?}"), "cup": cup, "prior_storage": prior, "log": trace::trace_json(&log)}));
+    }
+    if stop != Stop::Finished {
+        return out.fail(format!("one-shot check did not finish: {stop:?}"), "");
+    }
+    let failed = is_failed_check(class).unwrap();
+    let exp_fails: u32 = if failed { if prior { 3 } else { 1 } } else { 0 };
+    let snap = e.w.lock().unwrap().store.committed.clone();
+    let (sched, state, _) = match hist::present_after_rebuild(&setup, &snap) {
+        Some(x) => x,
+        None => return out.fail("rebuilt machine silent", ""),
+    };
+    if state.fails != exp_fails {
+        return out.fail(
+            format!("after a one-shot {class:?} check the committed failure count is {}, expected {exp_fails}", state.fails),
+            format!("prior storage: {prior}"),
+        );
+    }
+    let t = sched.last_update_time.and_then(|t| t.wall);
+    if touches_time(class) {
+        match t {
+            Some(w) if w > trunc_us(lo) && w <= hi => {}
+            other => return out.fail(format!("after a one-shot {class:?} check the committed last-contact time is not inside the check"), format!("{other:?} not in ({lo}, {hi}]")),
+        }
+    } else {
+        let exp = if prior { Some(old_time_us as i128 * 1000) } else { None };
+        if t != exp {
+            return out.fail(format!("a one-shot {class:?} check changed the committed last-contact time"), format!("{t:?} vs {exp:?}"));
+        }
+    }
+    let exp_poll = if class == Step::InstalledRetryAfter { None } else { None };
+    if state.poll != exp_poll {
+        return out.fail("committed poll interval wrong after a one-shot check", format!("{:?}", state.poll));
+    }
+    out
+}
+
 fn parts(tier: Tier) -> Vec<PartDef> {
     vec![PartDef::new(
+        "oneshot-durability",
+        Cfg::new("C08/oneshot-durability"),
+        json!({"classes": 10, "cup": 2, "prior_storage": ["empty", "2 failures + old contact time"], "oracle": "after the one-shot stream ended a machine rebuilt on the committed storage presents the reference values", "exploration": "full product"}),
+        run_oneshot,
+    ), PartDef::new(
         "histories-with-crash-points",
         Cfg::new("C08/histories"),
         json!({"max_history_length": tier.pick(3, 4), "check_classes": 13, "ping_classes": 4, "restart": "any position", "cup": ["off", "on"], "construction_failure_config": true,
